@@ -2,7 +2,7 @@
 from ..core import hx
 from . import _plan
 ID = "C14"
-PROPS = ["F1Verif.Props.C14", "F1Verif.Props.C15", "F1Verif.Props.C14Cli", "F1Verif.Props.FactsC14", "F1Verif.Props.RefineC15", "F1Verif.Props.RefineC08C", "F1Verif.Props.RefineC15F"]
+PROPS = ["F1Verif.Props.C14", "F1Verif.Props.C15", "F1Verif.Props.C14Cli", "F1Verif.Props.FactsC14", "F1Verif.Props.RefineC15", "F1Verif.Props.RefineC08C", "F1Verif.Props.RefineC15F", "F1Verif.Props.RefineC14B"]
 ALSO = ["F1Verif.Legacy.Parse"]
 RULE = ("engine A: grammar-directed rate strings (valid, near-miss: missing parts, stray signs, dots, spaces, empty unit, "
         "zero/negative intervals, overflowing numbers, non-ASCII units) and random strings through rate.ParseRate; the same "
